@@ -82,7 +82,10 @@ CLAIMED["C07"] = dict(
     text="Proof (Lean 4) of the limit logic of the model for all machines/oracles: no action of a limitable kind passes the limit predicates unless the state limit is > 0 (every path, incl. the zero-packet and replace paths), "
          "every such action ever put in a slot was gated at a positive limit, the limit is resampled exactly on a change of state index, a completion decrements by one and at 0 with a limited action withdraws the pending action and "
          "delivers LimitReached at once, other machines never touch the limit; and over whole calls and histories (C07_exhausted, C07_exhausted_history; any machines, any oracle): once the limit is 0 every later call returns at most a Cancel for the machine and leaves the limit at 0 "
-         "until a resampling is logged, which happens only on a change of state index. The exact count (L completions consume the limit) over whole histories is checked by the monitor on the implementation's log (limit assignments are hooked) and by the correspondence, not by a theorem.",
+         "until a resampling is logged, which happens only on a change of state index. The exact count is a theorem too (C07_completion_step, C07_countdown, C07_countdown_fire and the TimerBegin/BlockingBegin analogues): in a state without a transition on the completion event, "
+         "k < L completions of the machine leave the state and set the limit to L - k with nothing in the slot and no LimitReached, and the L-th completion of a limited action logs the decrement to 0 and delivers LimitReached to the machine in that very call (L = 0 included); "
+         "completions for other machines or unknown ids never change the machine's limit or state (C07_other_machine_completion), and over any history the number of decrements of a machine's limit is at most the number of its completions (C07_decrements_le_completions). "
+         "The monitor on the implementation's hooked limit log and the correspondence tie the code to this.",
     ref="5 (C07)",
     technique="Lean 4 theorems on the limit predicates and the decrement/enter functions of the model + hooked limit log: spec monitor and differential correspondence on the implementation",
 )
